@@ -183,7 +183,9 @@ def numeric(cls):
     def __str__(self):
         return str(int(self))
 
-    setattr(cls, "__str__", __str__)
+    if "__str__" not in cls.__dict__:
+        # keep a text form the class defines itself (e.g. the member name of a value-set type)
+        setattr(cls, "__str__", __str__)
 
     def __repr__(self):
         return f"{type(self).__name__}({str(self)})"
